@@ -152,7 +152,16 @@ def handle (req : Json) : Except String Json := do
   if op == "seq" then return (← handleSeq req)
   if op == "variance" then
     let xs ← ratList (← field req "xs")
-    return obj [("variance", ratToJson (variance xs)), ("sd", ratToJson (sdApprox xs))]
+    let v := variance xs
+    let p := pySqrtFrac v.num.toNat v.den
+    return obj [("variance", ratToJson v), ("sd", ratToJson (sdApprox xs)),
+                ("pysqrt", Json.arr #[ofNat p.1, ofNat p.2]), ("pysd", ratToJson (pySd xs)),
+                ("shift", Json.num (JsonNumber.fromInt (pySqrtShift v.num.toNat v.den)))]
+  if op == "pysqrt" then
+    let n ← nat (← field req "n")
+    let m ← nat (← field req "m")
+    let p := pySqrtFrac n m
+    return obj [("num", ofNat p.1), ("den", ofNat p.2), ("rto", ofNat (isqrtRto n m))]
   if op == "ragged" then
     -- `Scale.filter` on dense contexts that may be ragged
     let rows ← (← arr (← field req "rows")).mapM (fun r => do (← arr r).mapM valOfJson)
